@@ -203,8 +203,16 @@ def _accessor_uses(f):
         if isinstance(par, ast.Assign) and par.value is expr and isinstance(par.targets[0], ast.Name):
             aliases[par.targets[0].id] = acc
             return
+        if isinstance(par, ast.Assign) and par.value is expr and isinstance(par.targets[0], (ast.Tuple, ast.List)) \
+                and any(isinstance(t_, ast.Starred) for t_ in par.targets[0].elts):
+            add(acc, 'iter')        # `first, *others = ctx.x()`: every element is taken
+            return
         if isinstance(par, ast.Call) and expr in par.args:
-            add(acc, 'single')      # passed on (self.visit(ctx.x()))
+            fn_ = par.func.attr if isinstance(par.func, ast.Attribute) else (par.func.id if isinstance(par.func, ast.Name) else '')
+            if fn_ in ('visit', 'visitChildren') or fn_.startswith('visit'):
+                add(acc, 'single')      # passed on (self.visit(ctx.x()))
+            else:
+                add(acc, 'iter')        # the whole list of children handed to a helper: nothing is cut off here
             return
         add(acc, 'single')
 
